@@ -60,10 +60,9 @@ class Problem(Exception):
 
 def coq_build():
     """full .vo build (no -vos); no-op when current"""
-    if not os.path.exists(os.path.join(COQ, "Makefile")):
-        rc, out, err, _ = run(["coq_makefile", "-f", "_CoqProject", "-o", "Makefile"], cwd=COQ, timeout=120)
-        if rc != 0:
-            raise Problem("coq_makefile failed: " + err)
+    rc, out, err, _ = run(["sh", "./mkproject.sh"], cwd=COQ, timeout=120)
+    if rc != 0:
+        raise Problem("coq/mkproject.sh failed: " + out + err)
     rc, out, err, dt = run(["make", "-j16"], cwd=COQ, timeout=3000)
     return rc, out + err, dt
 
